@@ -306,3 +306,80 @@ func streamHandle(c map[string]J) map[string]J {
 }
 
 func streamGen(seed int64, n int, opts map[string]string) []J { return nil }
+
+// Family "streamout" (C19, output side): cases from StreamOut.tla: a sequence of output operations addressed to the
+// host-provided user_output or to a file opened by open/4, and the text each sink must hold afterwards.
+func init() {
+	register("streamout", &family{handle: streamOutHandle})
+}
+
+func streamOutHandle(c map[string]J) map[string]J {
+	dir := opt("tmp")
+	if dir == "" {
+		dir = os.TempDir()
+	}
+	file := filepath.Join(dir, fmt.Sprintf("vh-out-%d.txt", os.Getpid()))
+	defer os.Remove(file)
+	conc := func(v J) string {
+		var sb strings.Builder
+		for _, ch := range v.([]J) {
+			sb.WriteString(concChar(ch.(string)))
+		}
+		return sb.String()
+	}
+	var goals, desc []string
+	for _, x := range c["hist"].([]J) {
+		h := x.(map[string]J)
+		s := "user_output"
+		if h["sink"] == "file" {
+			s = "f"
+		}
+		var g string
+		switch h["op"] {
+		case "put_char":
+			g = fmt.Sprintf("put_char(%s, '%s')", s, conc(h["text"]))
+		case "nl":
+			g = fmt.Sprintf("nl(%s)", s)
+		case "write":
+			g = fmt.Sprintf("write(%s, %s)", s, conc(h["text"]))
+		case "writeq":
+			g = fmt.Sprintf("writeq(%s, 'A b')", s)
+		case "print_list":
+			g = fmt.Sprintf("write(%s, [a,b])", s)
+		}
+		goals = append(goals, g)
+		desc = append(desc, g)
+	}
+	wantUser, wantFile := conc(c["user"]), conc(c["file"])
+	for _, ctx := range []string{"conjunction", "queries"} {
+		_ = os.Remove(file)
+		var out strings.Builder
+		p := prolog.New(strings.NewReader(""), &out)
+		input := strings.Join(desc, ", ") + " (" + ctx + ")"
+		if sol := p.QuerySolution(fmt.Sprintf("open('%s', write, _, [alias(f)]).", file)); sol.Err() != nil {
+			return map[string]J{"status": "badcase", "detail": sol.Err().Error()}
+		}
+		if ctx == "conjunction" {
+			if sol := p.QuerySolution(strings.Join(append(goals, "true"), ", ") + "."); sol.Err() != nil {
+				return map[string]J{"status": "mismatch", "input": input, "what": "the output goals did not succeed", "expected": "success", "observed": sol.Err().Error()}
+			}
+		} else {
+			for _, g := range goals {
+				if sol := p.QuerySolution(g + "."); sol.Err() != nil {
+					return map[string]J{"status": "mismatch", "input": input, "what": "output goal " + g, "expected": "success", "observed": sol.Err().Error()}
+				}
+			}
+		}
+		if sol := p.QuerySolution("close(f)."); sol.Err() != nil {
+			return map[string]J{"status": "mismatch", "input": input, "what": "close/1 of the file stream", "expected": "success", "observed": sol.Err().Error()}
+		}
+		if got := out.String(); got != wantUser {
+			return map[string]J{"status": "mismatch", "input": input, "what": "text that reached user_output", "expected": wantUser, "observed": got}
+		}
+		b, _ := os.ReadFile(file)
+		if string(b) != wantFile {
+			return map[string]J{"status": "mismatch", "input": input, "what": "text that reached the file", "expected": wantFile, "observed": string(b)}
+		}
+	}
+	return map[string]J{"status": "ok", "input": strings.Join(desc, ", ")}
+}
